@@ -39,6 +39,8 @@ func main() {
 		err = genArith(os.Args[1], os.Args[2], os.Args[3])
 	case "arithC20", "arithC16", "arithC05", "arithC12", "arithC10": // second batch of arithmetic ties, specs in arith2.go
 		err = genArith(os.Args[1], os.Args[2], os.Args[3])
+	case "arithC03b": // weight-breaking fee of oracle pools, specs in arith3.go
+		err = genArith(os.Args[1], os.Args[2], os.Args[3])
 	default:
 		err = fmt.Errorf("unknown table %q", os.Args[1])
 	}
